@@ -31,10 +31,11 @@ PROPS["C10"] = dict(
 
 PROPS["C11"] = dict(
     pkg="./props/codec", level="exploration", design_ref="DESIGN.md §3 C11",
-    technique="rapid-generated well-formed messages serialised by an independent encoder, parsed by quickfix in three dictionary modes and compared field by field with an independent scanner; single-corruption metamorphic variants must be rejected",
+    technique="rapid-generated well-formed messages serialised by an independent encoder, parsed by quickfix in three dictionary modes and compared field by field with an independent scanner; single-corruption metamorphic variants must be rejected; metamorphic history stage (a freshly loaded dictionary, the same dictionary after a conforming message, and the long-lived dictionary object give the same parse)",
     stages=[dict(name="rapid", kind="rapid", run="^TestC11_Rapid$", checks=(3000, 60000), shards=(12, 16), timeout=(400, 2400)),
+            dict(name="history", kind="plain", run="^TestC11_HistoryIndependent$", shards=(8, 16), timeout=(400, 2400)),
             dict(name="fuzz-parse", kind="fuzz", run="^FuzzC11_Parse$", thorough_only=True, fuzztime=(0, 90), timeout=(0, 400))],
-    require=["mode:none", "mode:app", "mode:fixt", "with-xmldata", "with-dictionary-group", "corruption:len+", "corruption:swap89", "corruption:omit35"],
+    require=["mode:none", "mode:app", "mode:fixt", "with-xmldata", "with-dictionary-group", "corruption:len+", "corruption:swap89", "corruption:omit35", "history:user-defined-tag-before-the-nested-group"],
     assumptions=["section membership of a tag is the FIX standard header/trailer table (identical in all shipped dictionaries)",
                  "duplicate tags outside groups are not generated (retrieval would be ambiguous)"],
 )
